@@ -10,6 +10,8 @@ Sources (later files override earlier ones, cell by cell):
                                    round 8; own_all_recheck.tsv: the one that had gone quiet (C05-f), after the correction
   mutants/own_r9.tsv               round 9: the first-pass rows that were caught, and for the others the individual re-runs
                                    (tools/mut.sh) after the checks were strengthened
+  mutants/own_r10.tsv              round 10, built like own_r9.tsv
+  mutants/own_base_c458e1f.tsv     the five changes that apply to c458e1f only (they edit code that the fix 79f35fd changed)
 A blank cell = that (change, check) pair was not run."""
 import collections, os, re
 by=collections.OrderedDict()
@@ -22,7 +24,7 @@ def load(f):
         name,c,code,nv=l.split('\t')
         if c=='-': continue
         by.setdefault(name,{})[c]=code
-for f in ['matrix_r123.tsv','matrix_partial_full.tsv','own_r1to6.tsv','own_r7.tsv','own_all.tsv','own_all_recheck.tsv','own_r9.tsv']:
+for f in ['matrix_r123.tsv','matrix_partial_full.tsv','own_r1to6.tsv','own_r7.tsv','own_all.tsv','own_all_recheck.tsv','own_r9.tsv','own_r10.tsv','own_base_c458e1f.tsv']:
     load(f)
 def key(n):
     m=re.match(r'(C\d\d)-([a-z]+)$',n)
